@@ -422,6 +422,10 @@ HARNESSES = [
             oracle='a chain built afterwards with the same registrations and no earlier lookups'),
 ]
 
+for _k in HARNESSES:
+    if _k.name in ('s_cache_step', 's_verify_step'):
+        _k.stub_kernel = True      # drives private functions / extension points with stub containers (see vlib.runner)
+
 MANIFEST = {
     'engine': 'symx',
     'technique': 'symbolic execution (CrossHair engine + z3): inductive one-step check of the real LookupBase cache layer from an arbitrary '
